@@ -4,8 +4,10 @@ package p18
 
 import (
 	"fmt"
+	"runtime"
 	"strconv"
 	"strings"
+	"sync"
 
 	"github.com/btcsuite/btcd/peer"
 	"github.com/btcsuite/btcd/wire/v2"
@@ -67,6 +69,44 @@ func (P) Exec(line string) string {
 			toks = strings.Split(f[8], ",")
 		}
 		return runHS(c, toks)
+	case "par":
+		// C18 par <sub>|<sub>|...  sub = dir;ours;allowSelf;net;host;rejVer;toks
+		if len(f) != 3 {
+			return "bad-op"
+		}
+		subs := strings.Split(f[2], "|")
+		outs := make([]string, len(subs))
+		var wg sync.WaitGroup
+		for i, sub := range subs {
+			q := strings.Split(sub, ";")
+			if len(q) != 7 {
+				return "bad-op"
+			}
+			ours, err := strconv.ParseUint(q[1], 10, 32)
+			if err != nil || ours == 0 {
+				return "bad-op"
+			}
+			c := hsCfg{inbound: q[0] == "in", ours: uint32(ours), allowSelf: q[2] == "1",
+				regtest: q[3] == "reg", local: q[4] == "local", rejectVer: q[5] == "1"}
+			var toks []string
+			if q[6] != "-" {
+				toks = strings.Split(q[6], ",")
+			}
+			wg.Add(1)
+			go func(i int) {
+				defer wg.Done()
+				for k := 0; k < i%4; k++ {
+					runtime.Gosched()
+				}
+				outs[i] = runHSx(c, toks, false)
+			}(i)
+		}
+		wg.Wait()
+		res := strings.Join(outs, "|")
+		if !waitCensusClean() {
+			res += " note=goroutine-leak"
+		}
+		return res
 	case "prestart":
 		// C18 prestart <in|out> <n> <fail|ok>
 		if len(f) != 5 {
@@ -203,6 +243,51 @@ func finishScript(toks []string, ours int64) []string {
 	return out
 }
 
+// randHS draws one random handshake script with its configuration.
+func randHS(r *core.Rand) (string, bool, string) {
+	in := r.Bool()
+	ours := oursEdges[r.Intn(len(oursEdges))]
+	theirs := pverEdges[r.Intn(len(pverEdges))]
+	if r.Chance(1, 2) {
+		theirs = r.Range(209, 70020)
+	}
+	allowSelf := r.Chance(1, 4)
+	reg, local := r.Chance(1, 3), r.Chance(1, 2)
+	rej := r.Chance(1, 12)
+	var toks []string
+	class := "hs-valid"
+	switch r.Intn(10) {
+	case 0: // garbage before the version
+		class = "hs-preversion"
+		toks = append(toks, randTok(r))
+	case 1: // self connection
+		class = "hs-self"
+		toks = append(toks, fmt.Sprintf("v:%d:1", theirs))
+	default:
+		toks = append(toks, fmt.Sprintf("v:%d:0", theirs))
+	}
+	if r.Chance(1, 6) {
+		class = "hs-midhandshake"
+		for j, m := 0, 1+r.Intn(3); j < m; j++ {
+			toks = append(toks, randTok(r))
+		}
+	}
+	if r.Chance(5, 6) {
+		if minI(ours, theirs) >= 70016 && r.Bool() {
+			toks = append(toks, "m:sendaddrv2")
+		}
+		toks = append(toks, "m:verack")
+	}
+	for j, m := 0, r.Intn(8); j < m; j++ {
+		toks = append(toks, randTok(r))
+	}
+	if r.Chance(1, 10) {
+		toks = append(toks, []string{"big", "trunc"}[r.Intn(2)])
+	}
+	toks = finishScript(toks, ours)
+	return class, len(toks) > 1, hsLine(in, ours, allowSelf, reg, local, rej, toks)
+}
+
 func (P) Generate(g *core.Gen) {
 	r := g.R
 	// 1. well-formed handshakes over the version grid, then application traffic.
@@ -229,47 +314,18 @@ func (P) Generate(g *core.Gen) {
 	}
 	// 2. random scripts, every configuration.
 	for i, n := 0, g.N(2500, 80000); i < n; i++ {
-		in := r.Bool()
-		ours := oursEdges[r.Intn(len(oursEdges))]
-		theirs := pverEdges[r.Intn(len(pverEdges))]
-		if r.Chance(1, 2) {
-			theirs = r.Range(209, 70020)
+		class, nt, line := randHS(r)
+		g.Case(class, nt, line)
+	}
+	// 2b. 8..12 independent peers at once, each compared with its own answer.
+	for i, n := 0, g.N(40, 600); i < n; i++ {
+		k := 8 + r.Intn(5)
+		subs := make([]string, k)
+		for j := range subs {
+			_, _, line := randHS(r)
+			subs[j] = strings.ReplaceAll(strings.TrimPrefix(line, "C18 hs "), " ", ";")
 		}
-		allowSelf := r.Chance(1, 4)
-		reg, local := r.Chance(1, 3), r.Chance(1, 2)
-		rej := r.Chance(1, 12)
-		var toks []string
-		class := "hs-valid"
-		switch r.Intn(10) {
-		case 0: // garbage before the version
-			class = "hs-preversion"
-			toks = append(toks, randTok(r))
-		case 1: // self connection
-			class = "hs-self"
-			toks = append(toks, fmt.Sprintf("v:%d:1", theirs))
-		default:
-			toks = append(toks, fmt.Sprintf("v:%d:0", theirs))
-		}
-		if r.Chance(1, 6) {
-			class = "hs-midhandshake"
-			for j, m := 0, 1+r.Intn(3); j < m; j++ {
-				toks = append(toks, randTok(r))
-			}
-		}
-		if r.Chance(5, 6) {
-			if minI(ours, theirs) >= 70016 && r.Bool() {
-				toks = append(toks, "m:sendaddrv2")
-			}
-			toks = append(toks, "m:verack")
-		}
-		for j, m := 0, r.Intn(8); j < m; j++ {
-			toks = append(toks, randTok(r))
-		}
-		if r.Chance(1, 10) {
-			toks = append(toks, []string{"big", "trunc"}[r.Intn(2)])
-		}
-		toks = finishScript(toks, ours)
-		g.Case(class, len(toks) > 1, hsLine(in, ours, allowSelf, reg, local, rej, toks))
+		g.Case("hs-parallel", true, "C18 par "+strings.Join(subs, "|"))
 	}
 	// 3. messages queued while the handshake is still in progress.
 	for _, dir := range []string{"in", "out"} {
